@@ -6,7 +6,11 @@ import copy, re, random
 from .common import *
 
 PKEYS = ['', '/', '~', '~0', '~1', 'a/b', 'm~n', '0', '01', 'a', 'A', 'foo', 'Foo']
-PNUMS = [0, 1, -1, 2, 3, 10, 42, 1.5, -0.25, 1e15, 2147483647, 2147483648, 0.9999999999999999, 1.0, 1.0000000000000002, 1e100, 0.1]
+PNUMS = [0, 1, -1, 2, 3, 10, 42, 1.5, -0.25, 1e15, 2147483647, 2147483648, 0.9999999999999999, 1.0, 1.0000000000000002, 1e100, 0.1,
+         1e-300, 1e-20, 3e-20, -2.5e-17, 2.5e-17, 5e-324, 1e-310, 2e-310, 0.5, 0.5000000000000001, 1e15 + 1, -1e-300, 1e300, 1.0000000000000004e300]
+# pairs of numbers on both sides of the tolerance test (relative DBL_EPSILON) at very different magnitudes
+NUM_PAIRS = [(0, 1e-300), (1e-20, 3e-20), (-2.5e-17, 2.5e-17), (5e-324, 0), (1e-310, 2e-310), (0.5, 0.5000000000000001), (1.0, 1.0000000000000002),
+             (1.0, 1.0000000000000004), (1e300, 1.0000000000000002e300), (1e300, 1.0000000000000004e300), (0.1, 0.10000000000000002), (1e15, 1e15 + 1), (0, -1e-300), (3, 3.0000000000000004)]
 PSTRS = ['', 'x', 'foo', 'a/b', '~', 'hello world', 'Foo', '-', '0']
 EPS = 2.220446049250313e-16
 
